@@ -8,10 +8,17 @@ CLAIMED = {
   "text": "Partial. Proved on a transcription of the lexer grammar's text modes plus the listener's token joining: "
           "every character of a literal text written with the printer's escapes - at the first position or later - is "
           "read back exactly, trailing hashtags come back in order without '#' and never in the text, a trailing comment "
-          "disappears, optional escapes are equivalent (known finding D21 proved as a refutation). Proved on the runner "
+          "disappears, optional escapes are equivalent (known finding D21 proved as a refutation). Proved end to end for "
+          "literal text (lexer transcription, then the markup phase): a line written as ANY sequence of characters - each "
+          "escapable one with or without its backslash, single '<' and '/', plain ']', escaped brackets - with hashtags "
+          "or a comment after it is returned with every escape resolved, trimmed (literal_text_resolved*); the one "
+          "excluded inner shape, an escaped backslash directly before a plain ']', really fails (known finding D27, "
+          "proved as a refutation). Proved on the runner "
           "model: option groups keep every option in order with its tags, Disabled is false without a condition and the "
           "negated boolean otherwise, interpolated values are concatenated in order in their display forms. The "
-          "generated lexer itself and strconv's number formatting are modelled and compared on every run.",
+          "generated lexer itself and strconv's number formatting are modelled and compared on every run; the escapes "
+          "family runs token lists of known meaning through NewDialogueRunner/Next and judges the implementation against "
+          "that meaning, independently of the model.",
   "design_ref": "DESIGN.md section 5, C04",
   "note": "The theorem on first characters excludes texts starting with '-' or '=' (only '->' and '===' start another "
           "statement; the correspondence covers them). Inline expressions and conditions inside a line are not in the "
@@ -56,12 +63,13 @@ CLAIMED = {
   "technique": "Coq proof on the indentation wrapper model + metamorphic correspondence check across layouts",
  },
  "C16": {
-  "text": "Theorems over a universe of Go types described by what reflect reports (kind, named, implements error, channel "
+  "text": "Theorems over a universe of Go types described by what reflect reports (kind, identity of a defined type, implements error, channel "
           "direction/element): for every signature and argument list, the arguments the input converter produces satisfy "
           "reflect.Value.Call's precondition (count and exact parameter types, named types and variadic tails included), "
           "so an accepted function or command never panics in the bridge; nil, non-functions and nil function values are "
           "refused; registration succeeds exactly for the bridgeable signatures; booleans/strings pass unchanged and "
-          "numbers are converted to the declared kind. Correspondence: generated signatures x argument lists.",
+          "numbers are converted to the declared kind. Correspondence: generated signatures (two defined types per kind) x "
+          "argument lists; adjacent calls of a command are also issued back to back and must deliver the same arguments.",
   "design_ref": "DESIGN.md section 5, C16",
   "note": "reflect (Kind, ConvertibleTo, Convert, Call's panic conditions), goroutines and channels are modelled, not "
           "verified. Out-of-range float->int conversions follow amd64.",
@@ -195,10 +203,13 @@ CLAIMED = {
           "completion it behaves exactly like the same state without a pending command (resume_after_completion, then "
           "C01), an error is surfaced once, a registered handler is invoked exactly once with the evaluated arguments, "
           "stop is never dispatched. Correspondence: scripts x completion schedules imposed through harness-owned "
-          "channels; <<wait>> with real timers.",
+          "channels; <<wait>> with real timers; the three handler shapes of ConvertAndAddCommand (two of them running on "
+          "goroutines of the bridge, blocked until the schedule releases them), snapshots and restores while a command "
+          "is pending and re-execution of the command afterwards (family convcmds).",
   "design_ref": "DESIGN.md section 5, C10",
-  "note": "Partial: goroutine-backed handler shapes, data-race freedom and the real duration of <<wait n>> are outside "
-          "the model (channels are an option cell filled by the environment).",
+  "note": "Partial: data-race freedom and the real duration of <<wait n>> are outside the model (channels are an option "
+          "cell filled by the environment; goroutine-backed handlers are exercised by the harness, which polls Next until "
+          "the bridge has reported when a command is due).",
   "technique": "Coq proof of the pending-command automaton + differential correspondence check with imposed schedules",
  },
  "C11": {
